@@ -420,7 +420,7 @@ func runC01(c *Ctx) {
 		unchanged := containsStr(gk, "-Vaxis.refresh")
 		hasEq := false
 		for _, k := range gk {
-			if strings.HasPrefix(k, "next==") && strings.Contains(k, "screenLast") {
+			if i := strings.Index(k, "=="); i > 0 && !strings.Contains(k, "!=") && strings.Contains(k[:i], "screenNext") && strings.Contains(k[i:], "screenLast") && strings.HasSuffix(k[:i], "[row][col]") && strings.HasSuffix(k, "[row][col]") {
 				hasEq = true
 			}
 		}
@@ -683,22 +683,83 @@ func c01Covered(c *Ctx, info *types.Info, render *FuncInfo, g *FG, rems []*Emiss
 		zero := ok && len(cl.Elts) == 0 && typeName(st.info.TypeOf(cl)) == modPath+".Cell"
 		c.check(zero, "C01.i", fmt.Sprintf("%s/covered cell #%d stored as the zero Cell", st.fn, i+1), as.Pos(), "Cell{}", "the cell covered by a wide glyph is recorded as "+types.ExprString(as.Rhs[0])+" instead of being forgotten: the frame then relies on what the terminal leaves of a half-overwritten wide glyph")
 	}
-	// column advance by skip := vx.advance(next)
+	// column advance: `skip := <advance function>(…cell…)`, where the advance function is whichever repository
+	// function render calls with a Cell argument for an int that is then added to the column
 	var skipObjs = map[types.Object]bool{}
+	advFns := map[*FuncInfo]bool{}
+	isCellType := func(t types.Type) bool { return t != nil && typeName(t) == modPath+".Cell" }
+	colAdded := map[types.Object]bool{}
+	ast.Inspect(render.Decl.Body, func(n ast.Node) bool {
+		if as, ok := n.(*ast.AssignStmt); ok && as.Tok == token.ADD_ASSIGN && len(as.Lhs) == 1 && types.ExprString(as.Lhs[0]) == "col" {
+			if id, ok := unparen(as.Rhs[0]).(*ast.Ident); ok {
+				colAdded[info.ObjectOf(id)] = true
+			}
+		}
+		return true
+	})
 	ast.Inspect(render.Decl.Body, func(n ast.Node) bool {
 		as, ok := n.(*ast.AssignStmt)
 		if !ok || len(as.Lhs) != 1 || len(as.Rhs) != 1 {
 			return true
 		}
-		if call, ok := as.Rhs[0].(*ast.CallExpr); ok {
-			if fn := calleeOf(info, call); fn != nil && repoName(fn) == "vaxis.Vaxis.advance" {
-				if id, ok := as.Lhs[0].(*ast.Ident); ok {
-					skipObjs[info.ObjectOf(id)] = true
-				}
+		call, ok := as.Rhs[0].(*ast.CallExpr)
+		if !ok {
+			return true
+		}
+		hf := c.P.FuncOfObj(calleeOf(info, call))
+		id, isId := as.Lhs[0].(*ast.Ident)
+		if hf == nil || hf.Decl.Body == nil || !isId || !colAdded[info.ObjectOf(id)] {
+			return true
+		}
+		hasCell := false
+		for _, a := range call.Args {
+			if isCellType(info.TypeOf(a)) {
+				hasCell = true
 			}
+		}
+		if hasCell {
+			skipObjs[info.ObjectOf(id)] = true
+			advFns[hf] = true
 		}
 		return true
 	})
+	// the advance function returns the extra width: Width-1 for every explicit width 1..4
+	if len(advFns) == 0 {
+		c.undecided("C01.i", render.Name+"/advance function", render.Decl.Pos(), "no `skip := f(cell)` whose result is added to the column was found in render")
+	}
+	for hf := range advFns {
+		hinfo := hf.Pkg.TypesInfo
+		okAll, why := true, ""
+		for k := int64(1); k <= 4 && okAll; k++ {
+			m := &Machine{info: hinfo, prog: c.P, fields: map[string]val{}, tracked: func(*types.Var) bool { return false }}
+			m.resolve = func(e ast.Expr) (val, bool) {
+				if sel, ok := e.(*ast.SelectorExpr); ok && sel.Sel.Name == "Width" && isCellType(hinfo.TypeOf(sel.X)) {
+					return val{k: vInt, i: k}, true
+				}
+				return val{}, false
+			}
+			var args []val
+			for _, f := range hf.Decl.Type.Params.List {
+				for range f.Names {
+					args = append(args, val{})
+				}
+			}
+			ret := m.callDecl(hf.Decl, args)
+			switch {
+			case len(m.problems) > 0:
+				okAll, why = false, "cannot evaluate: "+strings.Join(m.problems, "; ")
+			case len(ret) != 1 || ret[0].k != vInt:
+				okAll, why = false, fmt.Sprintf("for Width=%d the result is not a known integer", k)
+			case ret[0].i != k-1:
+				okAll, why = false, fmt.Sprintf("for a cell of Width %d it returns %d, the glyph covers %d further cells", k, ret[0].i, k-1)
+			}
+		}
+		if strings.HasPrefix(why, "cannot evaluate") || strings.Contains(why, "not a known integer") {
+			c.undecided("C01.i", hf.Name+"/returns the extra width of the glyph (Width-1)", hf.Decl.Pos(), "%s", why)
+		} else {
+			c.check(okAll, "C01.i", hf.Name+"/returns the extra width of the glyph (Width-1)", hf.Decl.Pos(), "evaluated for Width 1..4", "the column advance is wrong: "+why)
+		}
+	}
 	isAdvance := func(n ast.Node) bool {
 		as, ok := n.(*ast.AssignStmt)
 		if !ok || as.Tok != token.ADD_ASSIGN || len(as.Lhs) != 1 {
